@@ -688,7 +688,12 @@ def gen_world(rng, quick=True):
                 if rng.random() < 0.3:
                     l.append([net_ip(9) + 7, PORT, FULL])
             nd["bdt"] = l
-    layout = {"op": "world", "nets": nets, "now": us(START), "tick": us(START + 1.0)}
+    # object identity (invisible to the model): in half of the layouts ONE pool of Address objects is shared
+    # by all BBMDs' add_peer calls, the nodes' own addresses and the foreign devices' register() calls — what
+    # an application does with `peers = [Address(...), ...]; for b in bbmds: for p in peers: b.add_peer(p)` —
+    # in the other half every call gets a fresh object (what tests/test_bvll/helpers.py does)
+    layout = {"op": "world", "nets": nets, "now": us(START), "tick": us(START + 1.0),
+              "share": rng.random() < 0.5}
     # events
     everyone = bbmds + simples + fds
     events = []
@@ -789,6 +794,15 @@ class RealWorld:
         self.router = v.IPRouter()
         self.nodes = collections.OrderedDict()     # (ip,port) -> dict
         self.order = []
+        self.share = bool(layout.get("share"))
+        self.pool = {}                             # (ip, port, mask) -> the ONE Address object, when sharing
+        if self.share:
+            # the nodes' own Address objects first (they carry the subnet's broadcast tuple)
+            for n in layout["nets"]:
+                for nd in n["nodes"]:
+                    a = nd["addr"]
+                    x = P.Address("%s/%d:%d" % (ip_str(a[0]), n["prefix"], a[1]))
+                    self.pool[(a[0], a[1], x.addrMask)] = x
         for n in layout["nets"]:
             net = v.IPNetwork("net%d" % n["id"])
             if n.get("router"):
@@ -797,6 +811,8 @@ class RealWorld:
             for nd in n["nodes"]:
                 a = nd["addr"]
                 addr = P.Address("%s/%d:%d" % (ip_str(a[0]), n["prefix"], a[1]))
+                if self.share:
+                    addr = self.pool.setdefault((a[0], a[1], addr.addrMask), addr)
                 if nd["kind"] == "simple":
                     bip = s.BIPSimple()
                 elif nd["kind"] == "foreign":
@@ -804,7 +820,7 @@ class RealWorld:
                 else:
                     bip = s.BIPBBMD(addr)
                     for e in nd.get("bdt", []):
-                        bip.add_peer(mk_addr(e[:2], e[2]))
+                        bip.add_peer(self.address(e[:2], e[2]))
                 codec = s.AnnexJCodec()
                 mux = B().Mux(addr, net, a)
                 upper = B().Upper(a)
@@ -813,6 +829,15 @@ class RealWorld:
                 c.bind(ase, bip)
                 self.nodes[tuple(a)] = {"bip": bip, "mux": mux, "ase": ase, "net": net, "kind": nd["kind"]}
                 self.order.append(tuple(a))
+
+    def address(self, a, mask=FULL):
+        """an Address for (ip, port) with that mask: the shared object of the pool, or a fresh one"""
+        if not self.share:
+            return mk_addr(a, mask)
+        key = (a[0], a[1], mask)
+        if key not in self.pool:
+            self.pool[key] = mk_addr(a, mask)
+        return self.pool[key]
 
     def flush(self, t):
         self.vt.run(until=t)
@@ -837,9 +862,9 @@ class RealWorld:
             elif op == "sap":
                 nd["ase"].request(mk_bvll(ev["msg"], dst=mk_addr(ev["to"])))
             elif op == "register":
-                nd["bip"].register(mk_addr(ev["bbmd"]), ev["ttl"])
+                nd["bip"].register(self.address(ev["bbmd"]), ev["ttl"])
             elif op == "regunreg":
-                nd["bip"].register(mk_addr(ev["bbmd"]), ev["ttl"])
+                nd["bip"].register(self.address(ev["bbmd"]), ev["ttl"])
                 if ev["variant"] == "fly":
                     # the real task manager runs the renewal task: the request is now in flight
                     task, _delta = self.vt.tm.get_next_task()
